@@ -54,7 +54,7 @@ def budget_s(tier: str) -> float:
 
 
 def case_timeout_s(tier: str) -> float:
-    return 600.0
+    return 600.0 if tier == "quick" else 2400.0
 
 
 def directed_cases(seed: int, tier: str) -> typing.List[dict]:
